@@ -12,10 +12,11 @@ Rec == ndJsonDeserialize(IOEnv.TRACE)
 VARIABLES l
 e == Rec[l]
 Max2(a, b) == IF a > b THEN a ELSE b
-Size == IF "m" \in DOMAIN e THEN Max2(Max2(e.n0, e.len), e.m) ELSE Max2(e.n0, e.len)
+N0 == IF "n0" \in DOMAIN e THEN e.n0 ELSE 0          \* absent when the call creates the queue
+Size == IF "m" \in DOMAIN e THEN Max2(Max2(N0, e.len), e.m) ELSE Max2(N0, e.len)
 Init == l = 1
 Next == /\ l <= Len(Rec) /\ l' = l + 1
-        /\ IF e.op \in {"reset", "drop", "clone", "new"} \/ e.panic = 1 \/ "n0" \notin DOMAIN e THEN TRUE
+        /\ IF e.op \in {"reset", "drop", "clone", "new"} \/ e.panic = 1 \/ "len" \notin DOMAIN e THEN TRUE
            ELSE IF Within(e.kind, e.op, Size, e.cmps) THEN TRUE
            ELSE PrintT(<<"FAIL", l, e.op, e.kind, {"cost"}>>) /\ PrintT(<<"NOTE", "cost", e.op, e.kind, Size, e.cmps, Bound(e.kind, e.op, Size)>>)
 Accepted == IF TLCGet("stats").diameter - 1 = Len(Rec) THEN PrintT(<<"CONSUMED", Len(Rec)>>)
